@@ -46,6 +46,17 @@ def drives(ph):
         ],
         "interp": [{"amp": ["interp", 100, [0.0, 5.0, 2.0, 0.0]], "det": ["interp", 100, [-3.0, 4.0, 1.0]], "phase": ph}],
         # same amplitude and detuning, phase ph then ph + pi exactly (for ph = 0: phases 0 and pi, i.e. sin(phi) = 0 throughout)
+        # two identical consecutive pulses: with an SLM mask only the interaction matrix changes at the mask end
+        "twosame": [
+            {"amp": ["const", 50, 7.0], "det": ["const", 50, -2.0], "phase": ph},
+            {"amp": ["const", 50, 7.0], "det": ["const", 50, -2.0], "phase": ph},
+        ],
+        # an idle gap between two pulses (all drive values exactly zero for a while)
+        "gap": [
+            {"amp": ["const", 40, 7.0], "det": ["const", 40, 2.0], "phase": ph},
+            {"delay": 20},
+            {"amp": ["const", 40, 5.0], "det": ["const", 40, -3.0], "phase": ph + 0.4},
+        ],
         "echo": [
             {"amp": ["const", 50, 8.0], "det": ["const", 50, 1.5], "phase": ph},
             {"amp": ["const", 50, 8.0], "det": ["const", 50, 1.5], "phase": ph + float(np.pi)},
@@ -57,7 +68,7 @@ def _alph(tier):
     if tier == "quick":
         return dict(
             shape=["pair", "bent3"],
-            drive=["const", "rampdet", "blackman", "twophase", "interp", "echo"],
+            drive=["const", "rampdet", "blackman", "twophase", "interp", "echo", "twosame", "gap"],
             phase=[0.0, 0.7],
             dmm=[0, 1],
             slm=[0, 1],
@@ -70,7 +81,7 @@ def _alph(tier):
         )
     return dict(
         shape=["one", "pair", "bent3", "tri3", "rect4"],
-        drive=["const", "rampdet", "blackman", "twophase", "interp", "echo"],
+        drive=["const", "rampdet", "blackman", "twophase", "interp", "echo", "twosame", "gap"],
         phase=[0.0, 0.7, float(np.pi)],
         dmm=[0, 1, 2],
         slm=[0, 1, 2],
